@@ -292,6 +292,27 @@ func h2cExtraCases(c *mon.Ctx, fns []string) []*h2cCase {
 		out = append(out, cs)
 	}
 
+	// mixed concurrent batches: the three functions (96- and 48-byte expansions) at the same time, some on long messages
+	for b := 0; b < c.N(6, 200); b++ {
+		cs := &h2cCase{Fn: fns[b%len(fns)], Layout: "exact", Class: "concurrent-mixed"}
+
+		for g := 0; g < 24; g++ {
+			ml := []int{5, 40, 4096, 70000, 200, 9}[g%6]
+			cs.Conc = append(cs.Conc, h2cPair{Fn: all3[(g+b)%3], Msg: mon.H(rr.Bytes(ml)), Dst: mon.H(rr.Bytes([]int{20, 49, 300, 16}[g%4]))})
+		}
+
+		out = append(out, cs)
+	}
+
+	// the package's own exported suite identifiers as tags, for every function
+	for i, suite := range []string{secp256k1.H2CSECP256K1, secp256k1.E2CSECP256K1} {
+		for j, fn := range fns {
+			for k, m := range []string{"", "abc", "a longer message for the suite identifiers"} {
+				out = append(out, &h2cCase{Fn: fn, Msg: mon.H([]byte(m)), Dst: mon.H([]byte(suite)), Layout: h2cLayouts[(i+j+k)%len(h2cLayouts)], Class: "suite-constant"})
+			}
+		}
+	}
+
 	return out
 }
 
@@ -444,13 +465,18 @@ func h2cRunHistory(c *mon.Ctx, cs *h2cCase) bool {
 
 		type job struct {
 			m, d, want, got []byte
+			fn              string
 			pan             any
 		}
 
 		jobs := make([]*job, len(cs.Conc))
 		for i, p := range cs.Conc {
-			jobs[i] = &job{m: mon.UnH(p.Msg), d: mon.UnH(p.Dst)}
-			jobs[i].want = h2cWant(cs.Fn, jobs[i].m, jobs[i].d)
+			jobs[i] = &job{m: mon.UnH(p.Msg), d: mon.UnH(p.Dst), fn: cs.Fn}
+			if p.Fn != "" {
+				jobs[i].fn = p.Fn // a mixed batch: the three functions (two output lengths) run at the same time
+			}
+
+			jobs[i].want = h2cWant(jobs[i].fn, jobs[i].m, jobs[i].d)
 		}
 
 		line := mon.StartLine(len(jobs))
@@ -466,7 +492,7 @@ func h2cRunHistory(c *mon.Ctx, cs *h2cCase) bool {
 				line()
 
 				for rep := 0; rep < 60; rep++ {
-					j.got = h2cCallBytes(cs.Fn, j.m, j.d)
+					j.got = h2cCallBytes(j.fn, j.m, j.d)
 					if !bytes.Equal(j.got, j.want) {
 						return
 					}
@@ -489,7 +515,7 @@ func h2cRunHistory(c *mon.Ctx, cs *h2cCase) bool {
 			}
 
 			if !bytes.Equal(j.got, j.want) {
-				c.Fail(fmt.Sprintf("%s wrong when %d goroutines hash simultaneously on buffers they own (job %d, dst[%d]): %s, RFC 9380 value is %s", cs.Fn, len(jobs), i, len(j.d), mon.H(j.got), mon.H(j.want)), "h2c-concurrent-value:"+cs.Fn, nil)
+				c.Fail(fmt.Sprintf("%s wrong when %d goroutines hash simultaneously on buffers they own (job %d, dst[%d]): %s, RFC 9380 value is %s", j.fn, len(jobs), i, len(j.d), mon.H(j.got), mon.H(j.want)), "h2c-concurrent-value:"+cs.Fn, nil)
 				return true
 			}
 		}
